@@ -404,10 +404,11 @@ int register_mod_src(m_mod_t *mod, m_src_types type, const void *src_data,
         }
         return !ret ? 0 : -errno;
     }
-    /* Rejected: the descriptor still belongs to the caller (and to the source already registered on it) */
+    /* Rejected: the descriptor and the userdata still belong to the caller (and to the source already registered on them) */
     if (!(flags & M_SRC_DUP)) {
         src->flags &= ~M_SRC_FD_AUTOCLOSE;
     }
+    src->flags &= ~M_SRC_AUTOFREE;
     m_mem_unref(src);
     return ret;
 }
